@@ -27,13 +27,15 @@ pub struct Shape {
     pub func_elems: Vec<u32>,
     pub n_elems: u32,
     pub leaf_hi: usize,
+    /// functions with index >= ref_limit are never referenced
+    pub ref_limit: usize,
     pub host_log: bool,
     pub declared: RefCell<BTreeSet<u32>>,
     pub features: RefCell<BTreeSet<&'static str>>,
 }
 
 impl Shape {
-    pub fn from_module(m: &GModule, local_func_tys: &[u32], cfg: &GenCfg, leaf_hi: usize) -> Shape {
+    pub fn from_module(m: &GModule, local_func_tys: &[u32], cfg: &GenCfg, leaf_hi: usize, ref_limit: usize) -> Shape {
         let mut func_tys = vec![];
         let mut globals = vec![];
         let mut mems = vec![];
@@ -77,6 +79,7 @@ impl Shape {
             func_elems,
             n_elems: m.elems.len() as u32,
             leaf_hi,
+            ref_limit,
             host_log: cfg.host_log,
             declared: RefCell::new(BTreeSet::new()),
             features: RefCell::new(BTreeSet::new()),
@@ -309,7 +312,7 @@ impl<'a, 'b, 'c> Emitter<'a, 'b, 'c> {
                 self.push(I::V128Const(v as i128))
             }
             VT::Func => {
-                if !self.s.func_tys.is_empty() && self.t.chance(1, 2) {
+                if self.s.ref_limit > 0 && self.t.chance(1, 2) {
                     let f = self.pick_ref_func();
                     self.push(I::RefFunc(f));
                 } else {
@@ -337,8 +340,9 @@ impl<'a, 'b, 'c> Emitter<'a, 'b, 'c> {
         }
     }
     fn pick_ref_func(&mut self) -> u32 {
-        let lo = if self.s.host_log { 1.min(self.s.func_tys.len() - 1) } else { 0 };
-        let f = self.t.range(lo, self.s.func_tys.len() - 1) as u32;
+        let hi = self.s.ref_limit.max(1) - 1;
+        let lo = if self.s.host_log { 1.min(hi) } else { 0 };
+        let f = self.t.range(lo, hi) as u32;
         self.s.declared.borrow_mut().insert(f);
         self.feat("reftypes");
         f
@@ -487,7 +491,7 @@ impl<'a, 'b, 'c> Emitter<'a, 'b, 'c> {
         }
     }
     fn callable(&self) -> Vec<u32> {
-        let n = self.s.func_tys.len();
+        let n = self.s.ref_limit.min(self.s.func_tys.len());
         if self.exec {
             let lo = if self.s.host_log { 1 } else { 0 };
             (lo..self.self_idx.min(n)).map(|x| x as u32).collect()
@@ -1932,7 +1936,7 @@ impl<'a, 'b, 'c> Emitter<'a, 'b, 'c> {
     }
 
     fn funcref_stmt(&mut self, d: u32) -> bool {
-        if self.s.func_tys.is_empty() || d >= self.cfg.max_depth {
+        if self.s.ref_limit == 0 || d >= self.cfg.max_depth {
             return false;
         }
         self.feat("funcrefs");
